@@ -106,8 +106,18 @@ type entry[TValue any] struct {
 	expunged *TValue
 }
 
+// expungedMark provides the address used as an entry's expunged marker. The
+// marker must differ from the address of every stored value; values of a
+// zero-size type (struct{}, [0]int) all live at one address, which is also what
+// new(TValue) returns for such a type, so the marker is a field of an
+// allocation that is never of size zero.
+type expungedMark[TValue any] struct {
+	v TValue
+	_ byte
+}
+
 func newEntry[TValue any](i TValue) *entry[TValue] {
-	e := &entry[TValue]{expunged: new(TValue)}
+	e := &entry[TValue]{expunged: &new(expungedMark[TValue]).v}
 	e.p.Store(&i)
 	return e
 }
